@@ -75,6 +75,8 @@ def judge(op, impl, model):
             feats = cyshape.features(json.loads(mq.group(1))) if mq else set()
             if "varlen-in-pattern-that-repeats-a-node-variable" in feats:
                 return "reject rows-differ:expansion-in-pattern-that-repeats-a-node-variable " + " ".join(w[2:])[:1500].replace(" ", "_")
+            if "quantifier-in-where-of-optional-match-with-rel-pattern" in feats:
+                return "reject rows-differ:quantifier-in-where-of-optional-match-over-a-relationship-pattern " + " ".join(w[2:])[:1500].replace(" ", "_")
             return "reject unexplained-difference " + " ".join(w[2:])[:1500].replace(" ", "_")
         m = re.search(r" explained=(\S+)", v)
         names = m.group(1).split(",")[0].split("+") if m else ["?"]
@@ -86,6 +88,7 @@ def judge(op, impl, model):
             shape = ("chain-through-node-carried-by-with" if {"with", "pattern-uses-earlier-binding", "rel-pattern"} <= feats
                      else "exact-length-expansion-in-pattern-with-node-bound-by-earlier-clause" if "exact-length-expansion-uses-earlier-binding" in feats
                      else "expansion-in-pattern-that-repeats-a-node-variable" if "varlen-in-pattern-that-repeats-a-node-variable" in feats
+                     else "optional-match-after-relationship-pattern" if "optional-match-after-rel-pattern" in feats
                      else "unrecognised-query-shape")
             return "reject multiplicity-only-difference:%s %s" % (shape, " ".join(w[2:])[:1500].replace(" ", "_"))
         if names[0] == "path-in-reverse-order":
@@ -349,5 +352,5 @@ MANIFEST = {
             "FRAGMENT SEARCHED = " + FRAGMENT_SEARCHED + ". Confirmed deviations of the unchanged translator from openCypher (OPTIONAL MATCH as first clause, jsonb ordering under ORDER BY, "
             "self loops under undirected patterns, missing relationship uniqueness across pattern parts, text-form comparisons, SQL run-time cast errors, ...) are findings in "
             "known_findings.json, each with a replay in corpus/C01.",
-    "note": "No PostgreSQL server: SQL meaning is a trusted Lean transcription of the documentation. Bounded evaluation on small graphs is search, not proof; the proof covers stages S1, S1o, S1d, S1c, S2b, S2x, S2c, S2n, S2L, S3a and S3b only (S2L against the base query's rows, see text).",
+    "note": "No PostgreSQL server: SQL meaning is a trusted Lean transcription of the documentation. Bounded evaluation on small graphs is search, not proof; the proof covers stages S1, S1o, S1d, S1c, S2b, S2x, S2c, S2n, S2L, S3a and S3b only (S2L against the base query's rows, see text; S2a — one hop without WHERE — is the WHERE-free case of S2b). The random generator draws LIMIT / SKIP boundary values (0, 1, 2^31, 2^63-1; SKIP 1000) and property maps on variable-length patterns; a row difference that no deviation switch explains keeps the catch-all key unexplained-difference (never registered) EXCEPT on the two query shapes of registered defects that the reference semantics has no switch for (expansion in a pattern that repeats a node variable; quantifier in the WHERE of an OPTIONAL MATCH over a relationship pattern), which are keyed rows-differ:<shape>.",
 }
